@@ -47,6 +47,58 @@ type Table struct {
 	metadataMu     sync.Mutex // Protects metadataLoaded field and loadFooter calls
 }
 
+// fileKey identifies the stored file behind a table within this process.
+type fileKey struct {
+	namespace any // set by filesystems whose URIs are not unique in the process
+	uri       string
+}
+
+// liveTables counts the Table objects of this process per stored file. Table
+// files are deleted when their Table is garbage collected, but several Table
+// objects can stand for the same file: a database opened from the checkpoint
+// of another database of the process (an operator that is deployed again)
+// shares the checkpoint's tables with it, and it writes new tables under names
+// that the previous database already used after that checkpoint. Only the
+// cleanup of the last Table of a file may delete it.
+var liveTables = struct {
+	mu sync.Mutex
+	n  map[fileKey]int
+}{n: make(map[fileKey]int)}
+
+func retainFile(file storage.File) fileKey {
+	key := fileKey{uri: file.URI()}
+	if f, ok := file.(interface{ Namespace() any }); ok {
+		key.namespace = f.Namespace()
+	}
+	liveTables.mu.Lock()
+	liveTables.n[key]++
+	liveTables.mu.Unlock()
+	return key
+}
+
+// releaseFile drops one reference and reports whether none is left.
+func releaseFile(key fileKey) bool {
+	liveTables.mu.Lock()
+	defer liveTables.mu.Unlock()
+	liveTables.n[key]--
+	if liveTables.n[key] <= 0 {
+		delete(liveTables.n, key)
+		return true
+	}
+	return false
+}
+
+// deleteUnreferencedFile runs deleteFunc unless a Table for the file was
+// created in the meantime.
+func deleteUnreferencedFile(key fileKey, deleteFunc func() error) error {
+	liveTables.mu.Lock()
+	defer liveTables.mu.Unlock()
+	if liveTables.n[key] > 0 {
+		return nil
+	}
+	return deleteFunc()
+}
+
 // NewTable initializes a new, empty table
 func NewTable(file storage.File) *Table {
 	t := &Table{
@@ -56,11 +108,18 @@ func NewTable(file storage.File) *Table {
 		size:        0,
 	}
 
-	runtime.AddCleanup(t, func(f func() error) {
-		if err := f(); err != nil {
+	type CleanupParams struct {
+		deleteFunc func() error
+		key        fileKey
+	}
+	runtime.AddCleanup(t, func(p CleanupParams) {
+		if !releaseFile(p.key) {
+			return
+		}
+		if err := deleteUnreferencedFile(p.key, p.deleteFunc); err != nil {
 			slog.Error("table cleanup", "err", err)
 		}
-	}, file.CreateDeleteFunc())
+	}, CleanupParams{deleteFunc: file.CreateDeleteFunc(), key: retainFile(file)})
 
 	return t
 }
@@ -97,6 +156,7 @@ func NewTableFromDocument(fs storage.FileSystem, dataOwnership kv.DataOwnership,
 		startKey      []byte
 		endKey        []byte
 		uri           string
+		key           fileKey
 	}
 	params := CleanupParams{
 		deleteFunc:    t.file.CreateDeleteFunc(),
@@ -104,9 +164,13 @@ func NewTableFromDocument(fs storage.FileSystem, dataOwnership kv.DataOwnership,
 		startKey:      doc.StartKey,
 		endKey:        doc.EndKey,
 		uri:           doc.URI,
+		key:           retainFile(t.file),
 	}
 
 	runtime.AddCleanup(t, func(p CleanupParams) {
+		if !releaseFile(p.key) {
+			return
+		}
 		canDelete, err := p.dataOwnership.ExclusivelyOwnsTable(p.uri, p.startKey, p.endKey)
 		if err != nil {
 			slog.Error("failed determining exclusive ownership, not deleting", "err", err, "uri", p.uri)
@@ -114,7 +178,7 @@ func NewTableFromDocument(fs storage.FileSystem, dataOwnership kv.DataOwnership,
 		}
 
 		if canDelete {
-			err := p.deleteFunc()
+			err := deleteUnreferencedFile(p.key, p.deleteFunc)
 			if err != nil {
 				slog.Error("failed deleting table", "uri", p.uri, "err", err)
 			}
